@@ -1,7 +1,7 @@
 """C12 — remote calls run at most once, answer their own caller, mutate atomically."""
 import mir
 from mir import callee
-from common import controlling_edges, switch_expr, switch_meaning
+from common import *  # noqa: F401,F403
 from rtc_common import *  # noqa: F401,F403
 
 THOROUGH_CONFIGS = ["full-codecs", "json-codec", "tests"]
